@@ -143,18 +143,16 @@ BeginNext(p, i) ==
   /\ UNCHANGED <<ctlvars, cfgvars, budvars>>
 
 \* a task raises: the worker task ends with the exception.  Pipeline still in its "while running" wait: it surfaces
-\* (task.result()).  Pipeline already told to stop: it surfaces only if this worker is among the first to complete,
-\* otherwise _shutdown_processing's asyncio.wait swallows it - both outcomes are behaviours of the code.
+\* at once (task.result()).  Pipeline already told to stop: _shutdown_processing collects the workers' exceptions and
+\* raises one of them once the items in flight have finished (which one is the set's business when several failed).
 TaskRaise(p, i, x) ==
   /\ apc = "inpipe" /\ cur = p /\ pst[p] \in {"running", "stopping"}
   /\ i \in Live(p) /\ st[p][i] % 2 = 1
   /\ raises < MaxRaise /\ raises' = raises + 1
   /\ dead' = [dead EXCEPT ![p] = @ \cup {i}]
   /\ \/ pst' = [pst EXCEPT ![p] = "crashed"] /\ perr' = [perr EXCEPT ![p] = x]
-     \/ pst[p] = "stopping" /\ UNCHANGED <<pst, perr>>
-     \* (a shutdown that collects the workers' exceptions - fixes_proposed/C13-app-task-failure-after-stop-swallowed -
-     \*  surfaces it once the items in flight have finished: also admitted, so that the repair is not a drift)
-     \/ pst[p] = "stopping" /\ perr[p] = "none" /\ UNCHANGED pst /\ perr' = [perr EXCEPT ![p] = x]
+     \/ pst[p] = "stopping" /\ UNCHANGED pst /\ perr' = [perr EXCEPT ![p] = x]
+     \/ pst[p] = "stopping" /\ perr[p] # "none" /\ UNCHANGED <<pst, perr>>
   /\ Obs([e |-> "end", p |-> p, i |-> i, j |-> (st[p][i] + 1) \div 2, ok |-> FALSE, x |-> x])
   /\ UNCHANGED <<ast, apc, cur, nxt, code, sconc, cfgvars, stops, concs, uecs, run2s>>
 
